@@ -7,16 +7,7 @@ import layoutlib as L
 import vlib
 
 MANIFEST = {
-    "text": "Ordering is a Coq theorem about the model of StorageLayout::add (push + stable sort) for ANY sequence of added entries: "
-            "the layout is sorted by (slot index, bit offset) and is a permutation of what was added; the sort key inside the model is "
-            "read from src/layout.rs on every run (changing it breaks the proof). 'Every entry lies inside its slot' rests on the "
-            "lifting passes only creating sub-words, shifted values and packed spans that fit in 256 bits (stage lemmas of the packing "
-            "passes) and is evaluated on the implementation's layouts for mask-and-shift code with shifts and mask positions anywhere "
-            "in 0..2^256, nested packed encodings and mutated real contracts. abi_type_for / the layout loop are modelled (Abi.v): "
-            "abi_packed_offsets proves that under the span discipline (each span's type no wider than the span) every reported row has "
-            "offset < 256 and known widths end <= 256, for ALL class tables; unification does not maintain that discipline "
-            "(C12_nested_refuted: known finding K-nested), so each run dumps the real final classes (tc-classes) and Coq decides "
-            "discipline / known class / violation on them (c12_class_code) and re-computes the rows with the model.",
+    "text": "Ordering is a Coq theorem about the model of StorageLayout::add (push + stable sort) for ANY sequence of added entries: the layout is sorted by (slot index, bit offset) and is a permutation of what was added; the sort key inside the model is read from src/layout.rs on every run (changing it breaks the proof). 'Every entry lies inside its slot' rests on the lifting passes only creating sub-words, shifted values and packed spans that fit in 256 bits (stage lemmas of the packing passes) and is evaluated on the implementation's layouts for mask-and-shift code with shifts and mask positions anywhere in 0..2^256, nested packed encodings and mutated real contracts. abi_type_for / the layout loop are modelled (Abi.v): abi_packed_offsets proves that under the span discipline (each span's type no wider than the span) every reported row has offset < 256 and known widths end <= 256, for ALL class tables; unification does not maintain that discipline (C12_nested_refuted: known finding K-nested), so each run dumps the real final classes (tc-classes) and Coq decides discipline / known class / violation on them (c12_class_code) and re-computes the rows with the model. END TO END: the stage models are composed into one executable model of the whole analysis (Pipeline.v: disassembly, VM, all_values, nine passes, registration, rules, unification under the hooked iteration orders, abi_type_for, layout), tied to the real `analyze` by a whole-program differential run in three order modes (stage of first disagreement reported), and pipeline_layout_sorted proves that any layout the composed model returns is sorted by (slot index, bit offset).",
     "note": "Trusted: Coq kernel; translator (sort key); slice::sort_by_key modelled as a stable insertion sort, not verified; harness.",
     "technique": "Coq proof (insertion-sort invariant, permutation) over a translated sort key; layout predicate evaluated inside Coq on "
                  "the implementation's output",
@@ -83,6 +74,8 @@ def check(ctx):
                              "input_classes": dict(collections.Counter(progs.values())),
                              "analysis_classes": {str(k): v for k, v in classes.items()},
                              "layout_entries_checked": sum(l.count(",(AT") for l in out)})
+    import p_pipeline
+    p_pipeline.suite(ctx, translate=False, codes={10}, cov_key="whole_pipeline_model", only=r"^(pipeline_layout_sorted|pipeline_glue|pipeline_rule_order)", part=(2, 3))
     import p_tc_stages as TS
     TS.suite(ctx, translate=False, parts=("abi", "classes"), codes={"abi": {22}, "classes": {62, 74, 75, 76}}, cov_key="tc_stages",
              only=r"^(abi_packed_offsets|wd_hyp_sound|C12_nested_refuted)")
